@@ -233,15 +233,15 @@ func init() {
 	}
 	checks["C13"] = &CheckDef{
 		Pkgs: []string{"./control"}, Splice: true,
-		Harness: []string{"control:Verif_C13_taskpool", "control:Verif_C13_taskpool_recycle", "control:Verif_C13_tuples", "control:Verif_C13_tuples_handover"},
-		MaxIter: 300,
+		Harness: []string{"control:Verif_C13_taskpool", "control:Verif_C13_taskpool_recycle", "control:Verif_C13_tuples", "control:Verif_C13_tuples_handover", "control:Verif_C13_overflow"},
+		MaxIter: 1000,
 		Level:   "other",
 		LevelText: "The real UdpTaskPool (EmitTask, acquireQueue, enqueue, convoy with its idle timer, tryDeleteQueue, channel recycling through sync.Pool) and the real conn-state tuple tracker (Retain / BeginRelease / FinalizeRelease / Forget with waiters on an in-flight deletion, through controlPlaneCore.Retain/Release/TransferRetainedUdpConnStateTuples) run as goroutines under the engine's schedule exploration: every interleaving at blocking operations plus one preemption at any atomic / mutex / channel / sync.Map / timer operation, the idle timer free to fire whenever its waiter is scheduled; schedules are symbolic inputs enumerated by the solver and pinned in the replay file. Obligations: every accepted task runs exactly once, tasks of a flow never overlap and keep each producer's order, nothing is lost in or run from a recycled channel; a kernel flow entry is deleted only when no owner holds its tuple, is gone once the last owner has gone (also when a reload moved ownership to the next generation's tracker), nothing stays tracked and no goroutine stays blocked on a deletion. A genuine defect was found with this check and repaired (see known_findings.json): the idle collection could remove a queue that still held a task.",
 		LevelNote: "Trusted: go/ssa, executor and its cooperative thread model (goroutines switch only at synchronisation operations: data-race-free code assumed; an unbuffered channel is a one-slot buffer), z3. The endpoint pool (GetOrCreate, single dial, failure cool-down, retirement, janitor) is not covered: it needs the dialer, sockets and the reply loop, which the executor does not encode.",
 		Technique: techniqueText,
 		Explanation: "Bounded schedule exploration (symbolic schedules, bounded preemptions) of the UDP task pool and the conn-state tuple tracker.",
-		Bounds: map[string]string{"quick": "task pool: 2 producers, 3 tasks, one or two flow keys, 1 preemption, each timer fires <=2 times; tuples: 3 owners over 2 tuples (1 preemption), hand-over of 1 tuple between two generations with a concurrent close", "thorough": "2 preemptions for the task pool"},
-		Outside: []string{"UdpEndpointPool (GetOrCreate, dial de-duplication, failure cool-down, retire, janitor, adoptGeneration)", "overflow FIFO beyond the 128-slot channel under concurrency", "task panics", "pool Close/Reset racing with producers", "data races on non-atomic fields"},
+		Bounds: map[string]string{"quick": "task pool: 2 producers, 3 tasks, one or two flow keys, 1 preemption, each timer fires <=2 times; overflow: bursts of 1/128/129/257/430 tasks for one flow before the worker runs, 0-2 later tasks (deterministic schedule); tuples: 3 owners over 2 tuples (1 preemption), hand-over of 1 tuple between two generations with a concurrent close", "thorough": "2 preemptions for the task pool"},
+		Outside: []string{"UdpEndpointPool (GetOrCreate, dial de-duplication, failure cool-down, retire, janitor, adoptGeneration)", "overflow FIFO interleaved with concurrent producers (the burst harness fills it before the worker runs)", "task panics", "pool Close/Reset racing with producers", "data races on non-atomic fields"},
 		Assumptions: []string{"goroutines switch only at synchronisation operations", "BpfMapBatchDelete replaced by a shadow table", "the kernel re-creates a flow entry once an owner has retained its tuple"},
 		QuickBudget: 10 * time.Minute, ThoroughBudget: 60 * time.Minute,
 	}
